@@ -142,6 +142,12 @@ class Run(object):
                 elif k == "wronghash":
                     bad = hmac.new(S2C, os.urandom(32) + self.nonce + self.snonce, hashlib.sha256).hexdigest().upper()
                     self.feed("250 AUTHCHALLENGE SERVERHASH=%s SERVERNONCE=%s\r\n" % (bad, sn))
+                elif k == "shorthash":
+                    self.feed("250 AUTHCHALLENGE SERVERHASH=%s SERVERNONCE=%s\r\n" % (good[:8 if len(self.wire) % 2 else 2], sn))
+                elif k == "emptyhash":
+                    self.feed("250 AUTHCHALLENGE SERVERHASH= SERVERNONCE=%s\r\n" % sn)
+                elif k == "longhash":
+                    self.feed("250 AUTHCHALLENGE SERVERHASH=%sAB SERVERNONCE=%s\r\n" % (good, sn))
                 elif k == "malformed":
                     self.feed("250 AUTHCHALLENGE SERVERNONCE=%s\r\n" % (sn if len(self.wire) % 2 else sn[:-1]))
                 else:
